@@ -65,7 +65,7 @@ SYNC_IO = '''pub trait Io {
 def module_of(key):
     """`p_operations` and `operations` both attach to operations.rs; several harness files may
     attach to one source file (suffix after `__`)."""
-    base = key[2:] if key.startswith("p_") else key
+    base = key[2:] if (key.startswith("p_") or key.startswith("x_")) else key
     base = base.split("__")[0]
     return base
 
@@ -126,8 +126,9 @@ def make(kind, dest):
 
     for key in harness_files():
         is_p = key.startswith("p_")
-        # `common` is attached to both overlays
-        if key != "common" and (is_p != (kind == "p")):
+        # `common` and the shared `x_*` files are attached to both overlays
+        shared = key == "common" or key.startswith("x_")
+        if not shared and (is_p != (kind == "p")):
             continue
         base = module_of(key)
         if base not in ATTACH:
